@@ -94,6 +94,7 @@ func (e *Engine) rhe(n, d *Term, hint string) *Term {
 		e.pc = append(e.pc, Cmp(">=", Mul(KI(2), r), Neg(d)))
 		e.defs = append(e.defs, Cmp("=", q, Op2("rhe", n, d)))
 		e.refine = append(e.refine, e.tieRule(q, r, d))
+		e.signLemma(q, n, false)
 		return q
 	}
 	return Op2("rhe", n, d)
@@ -118,6 +119,7 @@ func (e *Engine) trunc(n, d *Term, hint string) *Term {
 		e.pc = append(e.pc, Ite(Cmp(">=", n, KI(0)),
 			And(Cmp(">=", r, KI(0)), Cmp("<", r, d)),
 			And(Cmp("<=", r, KI(0)), Cmp(">", r, Neg(d)))))
+		e.signLemma(q, n, false)
 		return q
 	}
 	return Op2("tdiv", n, d)
@@ -138,6 +140,7 @@ func (e *Engine) ceil(n, d *Term, hint string) *Term {
 		e.pc = append(e.pc, Cmp("=", Mul(q, d), Add(n, r)))
 		e.pc = append(e.pc, Cmp(">=", r, KI(0)))
 		e.pc = append(e.pc, Cmp("<", r, d))
+		e.signLemma(q, n, true)
 		return q
 	}
 	return Op2("cdiv", n, d)
@@ -201,6 +204,7 @@ func (e *Engine) decQuo(a, b *Term) *Term {
 		e.refine = append(e.refine, Cmp("<=", Mul(KI(2), r2), kE))
 		e.refine = append(e.refine, Cmp(">=", Mul(KI(2), r2), Neg(kE)))
 		e.refine = append(e.refine, e.tieRule(q, r2, kE))
+		e.signLemma(q, a, false)
 		return q
 	}
 	return exact
